@@ -196,15 +196,15 @@ func (h *schedHarness) step() stepRes {
 			h.pending = c
 			continue
 		}
-		if c.op == "head" {
+		for k := 0; c.op == "head" && k < 4; k++ { // (more than one look at the head per iteration is tolerated: the answer stays "due")
 			c.release <- grel{override: true, job: &fakeDue{h.fakeJD, quartz.NowNano() - int64(time.Millisecond)}}
 			<-c.done
 			c = h.next()
-			if c.op == "size" { // the select took a pending interrupt token: go round again
-				h.pending = c
-				continue
-			}
-		} // else: the tick that ends a back-off pops without looking at the head again
+		}
+		if c.op == "size" { // the select took a pending interrupt token: go round again
+			h.pending = c
+			continue
+		} // (no head call at all: the tick that ends a back-off pops without looking at the head again)
 		if c.op != "pop" {
 			panic("sched harness: expected Pop, got " + c.op)
 		}
@@ -290,6 +290,11 @@ func schedRun(args []string) int {
 	offsets := []int64{-3 * hour, -2 * hour, -90 * minute, -30 * minute, -10 * minute, 20 * minute, hour, 2 * hour, 5 * hour}
 
 	for s := 0; s < *nseq; s++ {
+		thr := thr
+		if r.Intn(6) == 0 { // "never treat a fire time as outdated"
+			thr = time.Duration(math.MaxInt64)
+			dist["class"]["threshold-maxint64"]++
+		}
 		h := newSchedHarness(thr)
 		// application code commonly builds many jobs from one options value: the jobs must stay independent
 		optPool := map[[2]bool]*quartz.JobDetailOptions{}
